@@ -3,6 +3,7 @@ package synchronizer
 
 import (
 	"context"
+	"fmt"
 	"time"
 
 	"github.com/relab/hotstuff/core"
@@ -217,8 +218,8 @@ func (s *Synchronizer) OnRemoteTimeout(timeout hotstuff.TimeoutMsg) {
 	currView := s.state.View()
 	defer s.timeouts.deleteOldViews(currView)
 
-	if err := s.auth.Verify(timeout.ViewSignature, timeout.View.ToBytes()); err != nil {
-		s.logger.Infof("View timeout signature could not be verified: %v", err)
+	if err := s.verifyTimeout(timeout); err != nil {
+		s.logger.Infof("Timeout message could not be verified: %v", err)
 		return
 	}
 	s.logger.Debug("OnRemoteTimeout (advancing view): ", timeout)
@@ -241,6 +242,40 @@ func (s *Synchronizer) OnRemoteTimeout(timeout hotstuff.TimeoutMsg) {
 
 	s.logger.Debugf("OnRemoteTimeout (second advance)")
 	s.advanceView(si)
+}
+
+// verifyTimeout checks that the timeout message was signed by the replica named in its ID field.
+// With aggregate QCs enabled, the message signature that will become part of the aggregate QC
+// is checked as well, so that a single bad message cannot spoil the certificates of a view.
+func (s *Synchronizer) verifyTimeout(timeout hotstuff.TimeoutMsg) error {
+	if err := s.auth.Verify(timeout.ViewSignature, timeout.View.ToBytes()); err != nil {
+		return fmt.Errorf("view signature: %w", err)
+	}
+	if !signedOnlyBy(timeout.ViewSignature, timeout.ID) {
+		return fmt.Errorf("view signature was not created by replica %d", timeout.ID)
+	}
+	if !s.config.HasAggregateQC() {
+		return nil
+	}
+	if _, ok := timeout.SyncInfo.QC(); !ok {
+		return fmt.Errorf("timeout message from replica %d has no quorum certificate", timeout.ID)
+	}
+	if timeout.MsgSignature == nil {
+		return fmt.Errorf("timeout message from replica %d has no message signature", timeout.ID)
+	}
+	if err := s.auth.Verify(timeout.MsgSignature, timeout.ToBytes()); err != nil {
+		return fmt.Errorf("message signature: %w", err)
+	}
+	if !signedOnlyBy(timeout.MsgSignature, timeout.ID) {
+		return fmt.Errorf("message signature was not created by replica %d", timeout.ID)
+	}
+	return nil
+}
+
+// signedOnlyBy returns true if the signature has exactly one participant, namely id.
+func signedOnlyBy(sig hotstuff.QuorumSignature, id hotstuff.ID) bool {
+	participants := sig.Participants()
+	return participants.Len() == 1 && participants.Contains(id)
 }
 
 // OnNewView handles an incoming consensus.NewViewMsg
